@@ -352,6 +352,27 @@ fn family_c(max_segments: usize) -> Vec<Vec<Stmt>> {
     out
 }
 
+/// All balanced family-A programs of length <= k (shared with C11).
+pub fn family_a_programs(k: usize) -> Vec<Vec<Stmt>> {
+    let items = items_a();
+    let n = items.len();
+    let mut out = vec![];
+    for len in 1..=k {
+        for code in 0..n.pow(len as u32) {
+            let mut c = code;
+            let mut seq = Vec::with_capacity(len);
+            for _ in 0..len {
+                seq.push(c % n);
+                c /= n;
+            }
+            if let Some(p) = build_a(&items, &seq) {
+                out.push(p);
+            }
+        }
+    }
+    out
+}
+
 pub fn run(ctx: &Ctx, replay: Option<&Value>) -> i32 {
     let isa = Isa::new();
     if let Some(case) = replay {
